@@ -134,10 +134,16 @@ func run(c *harness.Ctx, i int) {
 			case "preload":
 				// new cache, preloaded from the previous state
 				if b, err := os.ReadFile(state); err == nil && doneAtSave != nil {
-					os.WriteFile(initState, b, 0644)
 					os.Remove(cache)
-					os.Remove(state)
-					opt.StateInitFile = initState
+					if rng.Intn(2) == 0 {
+						// the documented "same file for save and init" configuration
+						opt.StateInitFile = state
+						restarts[len(restarts)-1] = "preload-samefile"
+					} else {
+						os.WriteFile(initState, b, 0644)
+						os.Remove(state)
+						opt.StateInitFile = initState
+					}
 					opt.StateInitConcurrency = 1 + rng.Intn(4)
 					w.events["preload"] = true
 				}
